@@ -656,6 +656,22 @@ func (c *Ctx) evalCall(env *CEnv, e *ast.CallExpr) CVal {
 			ne := *env
 			ne.inOld = true
 			return c.evalExpr(&ne, e.Args[0])
+		case "athead":
+			// athead(N, e): the value of e at the head of the current iteration of the enclosing loop N (for the
+			// invariants and measures of loops nested inside it: "progress since the outer iteration began")
+			k := c.evalExpr(env, e.Args[0])
+			if k.K == nil {
+				cerr("athead: loop ordinal must be a constant")
+			}
+			n, _ := constant.Int64Val(k.K)
+			he := c.loopHeadEnv[int(n)]
+			if he == nil {
+				cerr("athead(%d, ...): no enclosing loop %d has been entered", n, n)
+			}
+			ne := *he
+			ne.bound = env.bound
+			ne.depth = env.depth
+			return c.evalExpr(&ne, e.Args[1])
 		case "len", "cap":
 			v := c.evalExpr(env, e.Args[0])
 			if v.K != nil && v.K.Kind() == constant.String {
